@@ -20,35 +20,40 @@ EXTENDS Naturals, Integers, Sequences, FiniteSets, TLC
 CONSTANTS L, G0, Globals, Variant, MaxSteps      \* G0: the configured global limit at the start; Globals: the values it is changed to (all >= L)
 Huge == 1000000
 Quotas == {-300, -1, 0, 1, L, L + 1, G0, G0 + 1, 25 * G0, 2147483647, -2147483647}        \* (int32 extremes: conversions to uint32 / float)
-VARIABLES ready, unavail, eff, last, hist, G, lastq
-vars == <<ready, unavail, eff, last, hist, G, lastq>>
+VARIABLES ready, unavail, eff, last, hist, G, lastq, old      \* old: the server currently answers "RequestIDTooOld" (nothing it says is applied)
+vars == <<ready, unavail, eff, last, hist, G, lastq, old>>
 Clamp(q, lo, hi) == IF q < lo THEN lo ELSE IF q > hi THEN hi ELSE q
 Eff == IF ready THEN eff ELSE L
-Init == ready = TRUE /\ unavail = FALSE /\ eff = 1 /\ last = "none" /\ hist = <<>> /\ G = G0 /\ lastq = 0      \* a new wrapper starts at its reserve (1)
+Init == ready = TRUE /\ unavail = FALSE /\ eff = 1 /\ last = "none" /\ hist = <<>> /\ G = G0 /\ lastq = 0 /\ old = FALSE      \* a new wrapper starts at its reserve (1)
 H(k, q) == hist' = Append(hist, [k |-> k, q |-> q])
-Accept(q) == /\ eff' = Clamp(q, 1, G) /\ unavail' = FALSE /\ last' = "accept" /\ lastq' = q /\ UNCHANGED <<ready, G>> /\ H("accept", q)
-Reject(q) == /\ IF Variant = "fixed" THEN eff' = Clamp(q, 0, G) /\ unavail' = FALSE
+Accept(q) == /\ old' = FALSE /\ eff' = Clamp(q, 1, G) /\ unavail' = FALSE /\ last' = "accept" /\ lastq' = q /\ UNCHANGED <<ready, G>> /\ H("accept", q)
+Reject(q) == /\ old' = FALSE
+             /\ IF Variant = "fixed" THEN eff' = Clamp(q, 0, G) /\ unavail' = FALSE
                 ELSE eff' = (IF q < 0 THEN Huge ELSE q) /\ UNCHANGED unavail
              /\ last' = "reject" /\ lastq' = q /\ UNCHANGED <<ready, G>> /\ H("reject", q)
-Fail(kind) == /\ IF unavail THEN UNCHANGED <<eff, unavail>> ELSE eff' = L /\ unavail' = TRUE
+Fail(kind) == /\ old' = FALSE
+              /\ IF unavail THEN UNCHANGED <<eff, unavail>> ELSE eff' = L /\ unavail' = TRUE
               /\ last' = "fail" /\ UNCHANGED <<ready, G, lastq>> /\ H(kind, 0)
-TooOld == UNCHANGED <<ready, unavail, eff, last, G, lastq>> /\ H("tooold", 0)
-Flip == ready' = ~ready /\ UNCHANGED <<unavail, eff, last, G, lastq>> /\ H("ready", IF ready THEN 0 ELSE 1)
+TooOld == old' = TRUE /\ UNCHANGED <<ready, unavail, eff, last, G, lastq>> /\ H("tooold", 0)
+Flip == ready' = ~ready /\ UNCHANGED <<unavail, eff, last, G, lastq, old>> /\ H("ready", IF ready THEN 0 ELSE 1)
 \* the schema's configured GLOBAL limit changes (the periodic reconcile hands it to the wrapper: Resize): the new limit is recorded
 \* whatever the server's state; with the server usable the limiter drops to its reserve until the next answer, which (the server keeps
-\* answering the same way) is applied under the new limit
+\* answering the same way) is applied under the new limit - unless the server answers "RequestIDTooOld": then nothing is applied, the
+\* limiter stays at its reserve and the answer given under the old configuration is void
 SetGlobal(g) == /\ g # G /\ G' = g
                 /\ eff' = IF unavail THEN eff
+                          ELSE IF old THEN 1
                           ELSE IF last = "accept" THEN Clamp(lastq, 1, g)
                           ELSE IF last = "reject" THEN (IF Variant = "fixed" THEN Clamp(lastq, 0, g) ELSE (IF lastq < 0 THEN Huge ELSE lastq))
                           ELSE 1
-                /\ UNCHANGED <<ready, unavail, last, lastq>> /\ H("global", g)
+                /\ last' = IF old /\ ~unavail THEN "none" ELSE last
+                /\ UNCHANGED <<ready, unavail, lastq, old>> /\ H("global", g)
 Next == /\ Len(hist) < MaxSteps
         /\ \/ \E q \in Quotas : Accept(q) \/ Reject(q)
            \/ \E kind \in {"err", "transport", "silent"} : Fail(kind)
            \/ TooOld \/ Flip \/ \E g \in Globals : SetGlobal(g)
 Spec == Init /\ [][Next]_vars
-View == <<ready, unavail, eff, last, G, lastq>>
+View == <<ready, unavail, eff, last, G, lastq, old>>
 NeverAboveGlobal == Eff <= G
 LocalWhenUnusable == (~ready \/ last = "fail") => Eff = L
 =============================================================================
